@@ -12,6 +12,14 @@ CHECKS = {
    "trusted: pulldown-cmark as input-feature parser, std; bound: see evidence.coverage.bound; arithmetic as in release builds",
    "explicit-state enumeration of the input space against the implementation (stateless search, sharded subprocess workers)", "§5 C03"),
 }
+CHECKS["C01"] = ("docspace", "model_checking",
+   "bounded exhaustive exploration: every document of the stated finite space is formatted by the real code through three routes and both refs_extension settings, and an independent content extractor (folded over pulldown-cmark's event stream) must give the same content tree for input and output",
+   "trusted: pulldown-cmark (reference parser), the R1 extractor's stated equivalences; open defects are attributed by input-side trigger only (known_findings.json)",
+   "explicit-state enumeration of the input space against the implementation with a reference-model oracle", "§5 C01")
+CHECKS["C02"] = ("docspace", "model_checking",
+   "bounded exhaustive exploration: for every document of the space and every ordered pair of the four formatting routes, formatting the formatted text again must return it byte-for-byte",
+   "no reference model needed (the implementation is compared with itself); bound: see evidence",
+   "explicit-state enumeration of the input space, idempotence oracle over all route pairs", "§5 C02")
 NOT_APPLICABLE = {}
 manifest = {
  "version": 1,
